@@ -28,6 +28,9 @@ CHECKS = {
  "C09": dict(engine="A", technique="property-based testing with a reference desugaring and exhaustive bounded language equivalence (Earley on both grammars over all strings up to length 5) plus structural comparison of productions and meta-data (proptest, shrinking)",
    text="Bounded random exploration: generated valid grammar texts using every implemented construct; the real grammar dump is compared with the harness's own model: start symbol, production lists of user rules symbol for symbol, inline-string resolution, assignment names, inherited meta-data (production's own datum wins), terminals; sugar is compared by language (helper nonterminal and whole grammar vs the documented expansion, exhaustive over all token strings up to length 4/5 for <= 4 terminals) and by helper count.",
    note="Trusted: reference desugaring (DESIGN.md appendix A.3); bounded equivalence is exhaustive only up to the length bound; one recorded finding (separator ignored in helper names) keyed on its structural class."),
+ "C11": dict(engine="B", technique="property-based testing with rustc as the oracle: generated grammars x a pairwise covering array of generator settings, real generated parser + actions type-checked by `cargo check` in a scratch crate",
+   text="Bounded random exploration: AST-shape-rich generated grammars x 3 configurations each from a pairwise covering array over algorithm / builder / table layout / loc-info / regex engine / lexer type; every case the real compiler accepts is written by the real Settings::process_grammar into one scratch crate that path-depends on /repo/rustemo and must type-check; rustc diagnostics are attributed to cases by file path.",
+   note="Trusted: rustc; the scratch crate layout mirrors a user crate (sibling modules, a one-line g_lexer.rs for custom lexers); three recorded findings keyed on rustc code + file + structural class."),
  "C12": dict(engine="A", technique="property-based testing against an Earley valid-prefix oracle: error offsets of the real LR and GLR parsers on generated invalid inputs (proptest, shrinking)",
    text="Bounded random exploration: generated grammars x generated invalid inputs (mutations, truncations, random tokens, foreign characters, whitespace/newline variations); the reported error offset, line/column and expected list of the real LR and GLR parsers are compared with the first non-viable token computed by an independent Earley recogniser; sentences must parse.",
    note="Trusted: Earley valid-prefix computation on the spec's BNF (all nonterminals productive by construction); prefix-free terminals; default whitespace skipping."),
